@@ -480,10 +480,12 @@ namespace
                         if (h.live_blocks() != live_before)
                             out.violate("C18/leak", sim::fmt("allocate(%llu) threw but the heap's live set changed (%zu -> %zu blocks)", (unsigned long long)op.n, live_before, h.live_blocks()));
                         if (!heap_refused && representable && op.n > 0)
-                        {
-                            // the heap never said no: failure invented by the allocator. Counted, and flagged because
-                            // the property only allows reporting a failure, not manufacturing one.
                             ++p_spurious;
+                        if (!heap_refused && op.n > 0 && bytes <= ((unsigned __int128)1 << 32))
+                        {
+                            // the heap never said no to an ordinary-size request (<= 4 GiB): failure invented by the allocator. Flagged because the
+                            // property only allows reporting a failure, not manufacturing one. Above 4 GiB an implementation may legitimately refuse
+                            // without asking the heap (max_size() / PTRDIFF_MAX caps), so those throws are only counted.
                             bool einval = false;
                             for (size_t k = rs.events_seen; k < h.events.size(); ++k)
                                 einval |= h.events[k].kind == EV_ALLOC_EINVAL;
